@@ -357,3 +357,70 @@ Proof.
   - intros f g [<-|[<-|[<-|[]]]] [<-|[<-|[<-|[]]]]; vm_compute; congruence.
   - repeat split; try (vm_compute; reflexivity). vm_compute. discriminate.
 Qed.
+
+(** * Independence of the HashSet order of the matched frames (and of the accessed regions)
+
+    The handler's used / blocked frame sets (and the read / written / captured regions) are
+    [HashSet]s, visited by the graph builder in arbitrary order; the model takes lists.
+    [info_perm i i'] (Proofs/GraphPermProofs.v, pinned as C22_build_order_independent): same role,
+    memory-access error flag and is_scheduled, each of the five lists of [i'] a [Permutation] of
+    the corresponding list of [i]; [term_perm] likewise for the optional terminator.  For blocks
+    related pointwise (well formed: used/blocked disjoint sets, terminator a control-flow
+    instruction) the whole [BasicBlock::as_schedule] pipeline returns literally the same result —
+    items, total duration or error — and on the two graphs (same edge SET, in general different
+    edge LISTS, so different predecessor orders in the start-time maximum) [schedule] and the
+    traversal loop over any node order from any state agree.  The scheduler reads the graph only
+    through the sets of Scheduled predecessors and takes a maximum over them; for the maximum of
+    a set to be unique this needs [le] antisymmetric, a law on top of C25's total preorder
+    (premise below; true of Z, Q; of non-NaN f64 up to the sign of zero).  Proofs in
+    Proofs/GraphPermScheduleProofs.v. *)
+From Coq Require Import Permutation.
+From QV Require Import Proofs.GraphPermProofs Proofs.GraphPermScheduleProofs.
+
+Theorem C35_matched_frame_order_irrelevant :
+  forall (T : Type) (zero : T) (add sub : T -> T -> T) (ltb : T -> T -> bool),
+    (forall a b, ltb a b = true -> ltb b a = false) ->
+    (forall a b c, le T ltb a b -> le T ltb b c -> le T ltb a c) ->
+    (forall a b, le T ltb a b -> le T ltb b a -> a = b) ->
+    forall (is is' : list info) (term term' : option info) (groups : list nat) (durs : list (option T)),
+      Forall2 info_perm is is' -> term_perm term term' ->
+      wf_block is term = true -> length durs = length is ->
+      block_schedule T zero add sub ltb is' term' groups durs =
+      block_schedule T zero add sub ltb is term groups durs
+      /\ forall E, build is term = inr E ->
+           exists E', build is' term' = inr E' /\ (forall x, In x E <-> In x E') /\
+             schedule T zero add ltb E' durs = schedule T zero add ltb E durs /\
+             forall order ends items total,
+               sched_loop T zero add ltb E' durs (end_of T durs) order ends items total =
+               sched_loop T zero add ltb E durs (end_of T durs) order ends items total.
+Proof.
+  intros T zero add sub ltb Ha Ht Hs is is' term term' groups durs His Htm Hwf Hlen. split.
+  - exact (perm_block_schedule_equal T zero add sub ltb Ha Ht Hs is is' term term' groups durs His Htm Hwf Hlen).
+  - intros E Hb. exact (perm_schedule_equal T zero add ltb Ha Ht Hs is is' term term' E durs His Htm Hwf Hb Hlen).
+Qed.
+
+(** Non-vacuity: the antisymmetry law holds for the integers; instructions 1 and 2 use frames 0
+    and 1, instruction 3 uses both and blocks 2, 3 - visited once as 0,1 / 2,3 and once as
+    1,0 / 3,2.  The hypotheses hold, both graphs build, the Scheduled predecessors of node 3 come
+    in different orders ([1; 2] vs [2; 1]), the schedules coincide: starts 0, 0, 4, total 5. *)
+Example C35_order_nonvacuous :
+  (forall a b : Z, le Z Z.ltb a b -> le Z Z.ltb b a -> a = b) /\
+  let is := [MkInfo RRF false [] [] [] [0] [] true;
+             MkInfo RRF false [] [] [] [1] [] true;
+             MkInfo RRF false [] [] [] [0; 1] [2; 3] true] in
+  let is' := [MkInfo RRF false [] [] [] [0] [] true;
+              MkInfo RRF false [] [] [] [1] [] true;
+              MkInfo RRF false [] [] [] [1; 0] [3; 2] true] in
+  let durs := [Some 2%Z; Some 4%Z; Some 1%Z] in
+  Forall2 info_perm is is' /\ wf_block is None = true /\
+  exists E E', build is None = inr E /\ build is' None = inr E' /\
+    spreds E 3 = [1; 2; 0; 0] /\ spreds E' 3 = [2; 1; 0; 0] /\
+    schedule Z 0%Z Z.add Z.ltb E durs = inr ([(1, (0%Z, 2%Z)); (2, (0%Z, 4%Z)); (3, (4%Z, 1%Z))], 5%Z) /\
+    schedule Z 0%Z Z.add Z.ltb E' durs = schedule Z 0%Z Z.add Z.ltb E durs.
+Proof.
+  split.
+  - intros a b H1 H2. unfold le in *. apply Z.ltb_ge in H1, H2. apply Z.le_antisymm; assumption.
+  - cbv zeta. split; [repeat constructor|]. split; [reflexivity|].
+    eexists. eexists. split; [vm_compute; reflexivity|]. split; [vm_compute; reflexivity|].
+    repeat split; vm_compute; reflexivity.
+Qed.
